@@ -79,7 +79,7 @@ def alphabet_models(tier):
         for nm in ('a b', 'or', '1ab', 'ñu', 'a-b', 'true', 'Cafe\u0301', '\u212b', '\u2126', 'a\u2028b', 'a\x0bb', 'a\x0cb', 'a\x85b', 'a\x1cb',
                    'a\u2029b', '10', 'a  b'):
             out.append(rt.deviation(base, i, ('name', nm)))
-        for j, v in enumerate(['a\u2028b', 'a\x0cb', 'a\x85b', 'a\x1db', 'a\x0bb', 'Cafe\u0301', '\u212b', 'a\tb', 'a  b', 'x // y']):
+        for j, v in enumerate(['a\u2028b', 'a\x0cb', 'a\x85b', 'a\x1db', 'a\x0bb', 'Cafe\u0301', '\u212b', 'a\tb', 'a  b']):
             out.append(rt.deviation(base, i, ('attr', ('str%d' % j, v))))
     kids12 = [F('W%d' % i) for i in range(1, 13)]
     out.append(M(F('Rt', [R(2, 10, kids12)])))
@@ -89,7 +89,7 @@ def alphabet_models(tier):
                            [2 ** 53 + 1, -2 ** 63 - 1], {'id': 2 ** 63 - 1}]):
         out.append(rt.deviation(base, 1, ('attr', ('big%d' % j, v))))
     out.append(cm.on_carrier([('GREATER', 'x.att', 2 ** 53 + 1)]))
-    for lit in ("'a\u2028b'", "'a\x0cb'", "'Cafe\u0301'", "'a // b'", "'a  b'"):
+    for lit in ("'say \"hi\"'", "'a\u2028b'", "'a\x0cb'", "'Cafe\u0301'", "'a  b'"):
         out.append(cm.on_carrier([('EQUALS', 'x.name', lit)]))
     out.append(cm.on_carrier([('EQUALS', ('ADD', 'x.att', 9007199254740993), -2 ** 63 + 1)]))
     for m in rt.collision_models():
